@@ -127,6 +127,14 @@ def stream_decode_case(st, rng, res):
                 hist_switch = seg[-65536:]
                 hist = hist_contig if contiguous else hist_switch
                 blk, content, seqs = declib.gen_valid_block(rng, hist, max_seqs=6)
+                for _retry in range(20):
+                    # an empty block (result 0) leaves LZ4_streamDecode_t untouched - the previous segment stays the
+                    # history - which this scenario's bookkeeping of "what the decoder may still reference" does not follow
+                    if len(content) > 0:
+                        break
+                    blk, content, seqs = declib.gen_valid_block(rng, hist, max_seqs=6)
+                if len(content) == 0:
+                    break
                 if not valid:
                     # make one offset reach before the available history
                     lits = rng.randbytes(rng.choice([0, 3, 12]))
